@@ -495,4 +495,139 @@ theorem file_to_dir_both_orders :
       (switchTo fl (checkedOut [([120], ⟨.symlink, 1⟩)] [([120], (⟨5, 5, 1⟩, ⟨.missing, none⟩))])
         [([120, 47, 121], ⟨.regular, 1⟩)] [([120, 47, 121], (⟨9, 9, 1⟩, reg))]).err = none := by decide
 
+/-! ## 4. reset --hard: index, work tree and target three-way different -/
+
+/-- `reset_hard_exact`: `porcelain.reset(repo, "hard", commit)` from ANY state — for every path the
+staged entry `I`, the file on disk `W` and the target entry `T` may be absent or present and differ in
+content, executable bit and type in every combination (in particular `W = T ≠ I`: the old bytes put
+back by hand under a staged modification) — as long as no path of index, work tree and target lies
+below another.  The reset succeeds, HEAD is the target, the index's tree is the target, every tracked
+path holds the target's entry on disk, untracked files are untouched, and nothing is staged or
+unstaged.  `NoGoneEntries` is the hypothesis the code as it is forces (finding
+hardreset-deleted-file-keeps-index-entry); it is void once `_transition_to_absent` drops the index
+entry of a file that is already gone. -/
+theorem reset_hard_exact (w : World) (t : FMap Entry) (obs : Obs)
+    (hflat : Flat (w.index.keys ++ w.wd.keys ++ t.keys))
+    (hvi : w.index.keys.all validPath = true) (hvt : t.keys.all validPath = true)
+    (hobs : t.keys.all obs.has = true) (hgone : NoGoneEntries cur w t) :
+    ∃ w', resetHard cur w t obs = ⟨w', none⟩ ∧ w'.head = t ∧
+      (∀ p, (treeOf w'.index).get p = t.get p) ∧
+      (∀ p, ((w.index.get p).isSome = true ∨ (t.get p).isSome = true) → wdEntry w'.wd p = t.get p) ∧
+      (∀ p, w.index.get p = none → t.get p = none → w'.wd.get p = w.wd.get p) ∧
+      stagedAdd w'.head w'.index = [] ∧ stagedDel w'.head w'.index = [] ∧ stagedMod w'.head w'.index = [] ∧
+      unstagedOf cur w'.wd w'.index = .ok [] := by
+  obtain ⟨w', hr, hh, ho⟩ := resetHard_outcome cur rfl w t obs hflat hvi hvt hobs hgone
+  have hview : ∀ p f, w'.wd.get p = some f → hasFileAncestor w'.wd p = false := by
+    intro p f hf
+    exact (flat_view ho.keys hflat (ho.keys p (FMap.mem_keys_of_get hf))).1
+  have hidx : ∀ p, w'.index.get p = (t.get p).bind (fun y => (w'.wd.get p).map WFile.ientry) ∧
+      (∀ y, t.get p = some y → ∃ f, w'.wd.get p = some f ∧ f.entry = y ∧ w'.index.get p = some f.ientry) ∧
+      (t.get p = none → w'.index.get p = none) := by
+    intro p
+    cases ht : t.get p with
+    | some y =>
+      obtain ⟨f, h1, h2, h3⟩ := ho.tracked p y ht
+      exact ⟨(by simp [h1, h3]), (fun y' e => by cases e; exact ⟨f, h1, h2, h3⟩), (fun e => by cases e)⟩
+    | none =>
+      have hn : w'.index.get p = none := by
+        cases hi : w.index.get p with
+        | none => exact (ho.other p ht hi).2
+        | some i => exact (ho.gone p ht (by rw [hi]; rfl)).2
+      exact ⟨(by simp [hn]), (fun y e => by cases e), (fun _ => hn)⟩
+  refine ⟨w', hr, hh, ?_, ?_, ?_, ?_⟩
+  · intro p
+    simp only [treeOf]
+    rw [FMap.get_mapVal _ (fun _ (v : IEntry) => v.entry) p]
+    cases ht : t.get p with
+    | some y =>
+      obtain ⟨f, _, h2, h3⟩ := (hidx p).2.1 y ht
+      rw [h3]; simp [WFile.ientry, IEntry.entry, ← h2, WFile.entry]
+    | none => rw [(hidx p).2.2 ht]; rfl
+  · intro p hp
+    cases ht : t.get p with
+    | some y =>
+      obtain ⟨f, h1, h2, _⟩ := (hidx p).2.1 y ht
+      rw [wdEntry_file (lstatView_noAnc_some (hview p f h1) h1), h2]
+    | none =>
+      have hi : (w.index.get p).isSome = true := by
+        rcases hp with h | h
+        · exact h
+        · rw [ht] at h; cases h
+      have hn := (ho.gone p ht hi).1
+      cases hv : wdEntry w'.wd p with
+      | none => rfl
+      | some e =>
+        have : (wdEntry w'.wd p).isSome = true := by rw [hv]; rfl
+        obtain ⟨f, hf⟩ := (wdEntry_isSome_iff _ _).mp this
+        rw [lstatView_file_get hf] at hn; cases hn
+  · intro p hi ht
+    exact (ho.other p ht hi).1
+  · apply tracked_synced_nothing_changed
+    · intro p i hi
+      cases ht : t.get p with
+      | none => rw [(hidx p).2.2 ht] at hi; cases hi
+      | some y =>
+        obtain ⟨f, h1, h2, h3⟩ := (hidx p).2.1 y ht
+        rw [h3] at hi
+        exact ⟨f, h1, (Option.some.inj hi).symm, by rw [hh, ht, h2], hview p f h1⟩
+    · intro p h hp
+      rw [hh] at hp
+      obtain ⟨f, _, _, h3⟩ := (hidx p).2.1 h hp
+      rw [h3]; rfl
+
+/-- non-vacuity, with every relation between `I`, `W` and `T` at some path:
+`a`: `W = T ≠ I` (modified and staged, then the old bytes put back by hand);
+`b`: `I = W ≠ T`; `c`: all three differ (and the executable bit); `n`: staged addition the target lacks;
+`d/e`: absent from index and disk, present in the target; `u`: an untracked file. -/
+def wThreeWay : World :=
+  { head := [(pa, ⟨.regular, 1⟩), (pb, ⟨.regular, 2⟩), (pc, ⟨.regular, 3⟩)],
+    index := [(pa, ⟨.regular, 7, ⟨6, 6, 1⟩⟩), (pb, ⟨.regular, 8, ⟨6, 6, 1⟩⟩), (pc, ⟨.executable, 9, ⟨6, 6, 1⟩⟩),
+              (pn, ⟨.regular, 10, ⟨6, 6, 1⟩⟩)],
+    wd := [(pa, ⟨.regular, 1, ⟨7, 7, 1⟩, reg⟩), (pb, ⟨.regular, 8, ⟨6, 6, 1⟩, reg⟩), (pc, ⟨.regular, 11, ⟨7, 7, 1⟩, reg⟩),
+           (pn, ⟨.regular, 10, ⟨6, 6, 1⟩, reg⟩), (pu, ⟨.regular, 12, ⟨7, 7, 1⟩, reg⟩)] }
+
+def tThreeWay : FMap Entry := [(pa, ⟨.regular, 1⟩), (pb, ⟨.regular, 2⟩), (pc, ⟨.executable, 3⟩), (pde, ⟨.symlink, 4⟩)]
+
+def obsThreeWay : Obs := [(pa, (⟨9, 9, 1⟩, reg)), (pb, (⟨9, 9, 1⟩, reg)), (pc, (⟨9, 9, 1⟩, reg)), (pde, (⟨9, 9, 1⟩, ⟨.missing, none⟩))]
+
+example : ∃ w', resetHard cur wThreeWay tThreeWay obsThreeWay = ⟨w', none⟩ ∧ w'.head = tThreeWay ∧
+    (∀ p, (treeOf w'.index).get p = tThreeWay.get p) ∧ w'.wd.get pu = wThreeWay.wd.get pu := by
+  obtain ⟨w', h1, h2, h3, _, h5, _⟩ := reset_hard_exact wThreeWay tThreeWay obsThreeWay
+    (by decide) (by decide) (by decide) (by decide) (by decide)
+  exact ⟨w', h1, h2, h3, h5 pu (by decide) (by decide)⟩
+
+/-- at `a` (`W = T ≠ I`) the file is left alone and only the index entry is rewritten, from the file's
+own stat data; status is clean apart from the untracked `u`, and a second reset changes nothing -/
+example :
+    let r := resetHard cur wThreeWay tThreeWay obsThreeWay
+    r.err = none ∧ r.world.wd.get pa = wThreeWay.wd.get pa ∧
+    r.world.index.get pa = some ⟨.regular, 1, ⟨7, 7, 1⟩⟩ ∧
+    status cur r.world = .ok ⟨[], [], [], [], [pu]⟩ ∧
+    (resetHard cur r.world tThreeWay obsThreeWay).world.index = r.world.index ∧
+    (resetHard cur r.world tThreeWay obsThreeWay).world.wd = r.world.wd := by decide
+
+/-- FINDING (hardreset-deleted-file-keeps-index-entry), on the variant of the code that returns from
+`_transition_to_absent` before dropping the index entry: `a` is staged, deleted from disk, and absent
+from the target; after `reset --hard` the index still has it.  With the entry dropped it is gone. -/
+theorem reset_hard_gone_entry_witness :
+    let w : World := { head := [(pa, ⟨.regular, 1⟩)], index := [(pa, ⟨.regular, 1, ⟨5, 5, 1⟩⟩)], wd := [] }
+    (resetHard { cur with absentDropsIndex := false } w [] []).err = none ∧
+    (resetHard { cur with absentDropsIndex := false } w [] []).world.index.get pa = some ⟨.regular, 1, ⟨5, 5, 1⟩⟩ ∧
+    ¬ NoGoneEntries { cur with absentDropsIndex := false } w [] ∧
+    (resetHard { cur with absentDropsIndex := true } w [] []).world.index.get pa = none := by decide
+
+/-- FINDING (force-checkout-starts-from-head): `checkout(force=True)` on the variant that takes the
+changes from HEAD's tree and skips equal entries keeps a staged and an unstaged modification of a path
+that HEAD and the target agree on; started from the index (as `reset --hard`) it resets them. -/
+theorem force_checkout_witness :
+    let w : World := { head := [(pa, ⟨.regular, 1⟩)], index := [(pa, ⟨.regular, 2, ⟨6, 6, 1⟩⟩)],
+                       wd := [(pa, ⟨.regular, 3, ⟨7, 7, 1⟩, reg⟩)] }
+    let t : FMap Entry := [(pa, ⟨.regular, 1⟩)]
+    (switchForce { cur with forceUsesIndex := false } w t [(pa, (⟨9, 9, 1⟩, reg))]).world.index.get pa
+      = some ⟨.regular, 2, ⟨6, 6, 1⟩⟩ ∧
+    (treeOf (switchForce { cur with forceUsesIndex := true } w t [(pa, (⟨9, 9, 1⟩, reg))]).world.index).get pa
+      = some ⟨.regular, 1⟩ ∧
+    wdEntry (switchForce { cur with forceUsesIndex := true } w t [(pa, (⟨9, 9, 1⟩, reg))]).world.wd pa
+      = some ⟨.regular, 1⟩ := by decide
+
 end Dulwich.Props.C18
